@@ -164,7 +164,21 @@ Plan gen_conc(u64 seed) {
     Rng r(seed); Plan p; p.mode = "conc"; p.seed = seed;
     std::string font = gen_font(r);
     if (r.chance(1, 4)) { static const char *coll[] = {"AwamiNastaliq-Regular", "Awami_test", "Awami_compressed_test"}; font = coll[r.below(3)]; }   // collision fixing / kerning code runs only on these
-    Op mf; mf.kind = "make_face"; mf.s = font; mf.a = {0, 0, i64(6 | r.below(2)), 0, 0}; p.ops.push_back(mf);
+    Op mf; mf.kind = "make_face"; mf.s = font; mf.a = {0, 0, i64(6 | r.below(2)), 0, 0};
+    if (r.chance(1, 5)) {
+        // a preloaded face built from damaged (but stable) bytes: if the constructor accepts it, it must be as immutable as a
+        // healthy one - no fallback to on-demand loading of whatever could not be read during the preload
+        const FontImage *fi = g_corpus.find(font); Fault f;
+        static const char *gt[] = {"glyf", "loca", "hmtx", "Glat", "Gloc", "Silf", "cmap"};
+        for (int t = 0; fi && t < 30; ++t) { f = gen_store_fault(r, *fi); bool ok = false; for (auto *g : gt) if (f.tag == g) ok = true; if (ok && (f.kind == "BITROT" || f.kind == "SETBYTES" || f.kind == "TORN")) break; f.kind.clear(); }
+        if (fi && r.chance(1, 3)) {     // the last glyph's attribute run points behind Glat: only a trailing, unused glyph is unreadable
+            auto gl = fi->tables.find(mktag("Gloc"));
+            if (gl != fi->tables.end() && gl->second.size() > 12) { const Bytes &o = gl->second; bool lng = (be16(&o[4]) & 1) != 0; size_t w = lng ? 4 : 2, pos = o.size() - w - 2 * size_t(be16(&o[4]) & 2 ? be16(&o[6]) : 0);
+                if (pos > 8 && pos + w <= o.size()) { f = Fault(); f.kind = "SETBYTES"; f.tag = "Gloc"; for (size_t q = 0; q < w; ++q) { f.a.push_back(i64(pos + q)); f.a.push_back(q == 0 ? 0x7F : 0xFF); } } }
+        }
+        if (!f.kind.empty() && !f.a.empty()) { f.nth = -1; mf.faults.push_back(f); }
+    }
+    p.ops.push_back(mf);
     unsigned nfonts = r.below(3);
     for (unsigned i = 0; i < nfonts; ++i) { Op o; o.kind = "make_font"; o.a = {0, i64(16 * (6 + r.below(90)))}; p.ops.push_back(o); }
     unsigned nf = 2 + r.below(3);
